@@ -122,9 +122,47 @@ func c11Scripted(c *h.Ctx, id string, r *rand.Rand, total int, watch *h.CallWatc
 		blocks = append(blocks, b)
 		stream = append(stream, b...)
 	}
-	planName := []string{"1byte", "rand1-64", "rand1-20000", "whole-buffer", "header-cuts", "wrap-281600", "mixed"}[r.Intn(7)]
+	planName := []string{"1byte", "rand1-64", "rand1-20000", "whole-buffer", "header-cuts", "wrap-281600", "mixed", "fill-ends-in-header"}[r.Intn(8)]
 	if total > 1_000_000 && planName == "1byte" {
 		planName = "rand1-64"
+	}
+	if planName == "fill-ends-in-header" {
+		// the very first read fills the whole 32x8800-byte receive buffer and ends 1..4 bytes into
+		// the T/L header of a block (so the pending header sits at the very end of the buffer);
+		// the same alignment is repeated at later multiples of the buffer size
+		const bufSize = 32 * 8800
+		blocks, stream = nil, nil
+		hdrPos = map[int]bool{}
+		for len(stream) < total {
+			nextEdge := (len(stream)/bufSize + 1) * bufSize
+			k := 1 + r.Intn(4)
+			room := nextEdge - k - len(stream)
+			var b []byte
+			switch {
+			case room >= 300 && room <= 8800:
+				// filler of exactly `room` bytes: type 1 byte, 3-byte length
+				v := make([]byte, room-4)
+				r.Read(v)
+				l, _ := gen.VarForm(uint64(len(v)), 3)
+				b = append(append([]byte{0x06}, l...), v...)
+			case room == 0:
+				// the block whose header straddles the edge: 3- or 5-byte length form
+				v := make([]byte, 253+r.Intn(700))
+				r.Read(v)
+				l, _ := gen.VarForm(uint64(len(v)), []int{3, 5}[r.Intn(2)])
+				b = append(append([]byte{0x05}, l...), v...)
+			default:
+				b = c11Block(r, shortest)
+				if len(b) > room-300 && room > 300 { // do not overshoot the slot reserved for the filler
+					v := make([]byte, 10+r.Intn(200))
+					r.Read(v)
+					l, _ := gen.VarForm(uint64(len(v)), 1)
+					b = append(append([]byte{0x06}, l...), v...)
+				}
+			}
+			blocks = append(blocks, b)
+			stream = append(stream, b...)
+		}
 	}
 	nextChunk := func(off int) int {
 		switch planName {
@@ -134,7 +172,7 @@ func c11Scripted(c *h.Ctx, id string, r *rand.Rand, total int, watch *h.CallWatc
 			return 1 + r.Intn(64)
 		case "rand1-20000":
 			return 1 + r.Intn(20000)
-		case "whole-buffer":
+		case "whole-buffer", "fill-ends-in-header":
 			return 32 * 8800
 		case "wrap-281600":
 			return []int{32 * 8800, 32*8800 - 1, 8800, 8799, 8801, 1}[r.Intn(6)]
